@@ -249,7 +249,7 @@ WEIGHTS = {
   'summary': 6, 'summaryformula': 2, 'updsummary': 5, 'label': 1, 'renamechoices': 2, 'upsert': 1,
   'invalid': 1,
   # kinds added by SummaryGen
-  'listflip': 4, 'gbupdate': 10, 'summary0': 1,
+  'listflip': 4, 'gbupdate': 10, 'summary0': 1, 'chainref': 2,
 }
 
 GB_TYPES = ['Text', 'Int', 'Choice', 'ChoiceList', 'ChoiceList', 'Any', 'Bool', 'Date', 'Numeric']
@@ -326,6 +326,15 @@ def make_gen(rng, direct=False):
           return None
         gb = r.sample(cols, min(len(cols), r.choice([1, 1, 2, 2, 3])))
         return ['CreateViewSection', t['id'], 0, 'record', [c['id'] for c in gb], None]
+      if kind == 'chainref':
+        # a Ref / RefList column into a SUMMARY table (later used as group-by of a second summary table)
+        t, st = self.pick_table(meta), self.pick_table(meta, summary=True)
+        if t is None or st is None:
+          return None
+        cid = r.choice(['sref', 'sref2', 'slinks'])
+        self.pend(t['tableId'], cid, 0)
+        return ['AddColumn', t['tableId'], cid,
+                {'type': r.choice(['Ref:', 'Ref:', 'RefList:']) + st['tableId'], 'isFormula': False}]
       if kind == 'directadd':
         st = self.pick_table(meta, summary=True)
         if st is None:
@@ -339,9 +348,12 @@ def make_gen(rng, direct=False):
       return super(SummaryGen, self).gen(kind, meta)
 
   w = dict(WEIGHTS)
-  if direct:
+  if direct == 'chain':
+    w.update({'chainref': 5, 'gbupdate': 16, 'rmrec': 10, 'summary': 8, 'addtable': 0, 'rmtable': 0, 'rentable': 1,
+              'addcol': 1, 'rmcol': 1, 'modtype': 1, 'listflip': 2})
+  elif direct:
     w['directadd'] = 8
-  return SummaryGen(rng, weights=w)
+  return SummaryGen(rng, weights=w, max_tables=2 if direct == 'chain' else 3)
 
 
 # ------------------------------------------------------------------------------------------------
@@ -691,7 +703,10 @@ def run_history(seed, nb, direct=False, rec=None, undo_rate=0.15, script=None):
   if script is None:
     from harness import histgen
     gen = make_gen(rng, direct)
-    setup = [[gen.gen_addtable(histgen.Meta(e))] for _ in range(rng.randint(1, 2))]
+    if direct == 'chain':
+      setup = copy.deepcopy(CHAIN_PREFIX)
+    else:
+      setup = [[gen.gen_addtable(histgen.Meta(e))] for _ in range(rng.randint(1, 2))]
     total = len(setup) + nb
   else:
     gen, setup, total = None, [], len(script)
@@ -783,6 +798,20 @@ def _t(cols):
   return [{'id': c, 'type': t, 'isFormula': False} for c, t in cols]
 
 
+# T summarised by A; U has R: Ref and RL: RefList into T_summary_A and is summarised by R, by RL and by (R, N);
+# U rows with empty R / RL exist, so the key-0 rows of the second-level summaries exist.
+CHAIN_PREFIX = [
+  [['AddTable', 'T', _t([('A', 'Text'), ('B', 'Int')])]],
+  [['BulkAddRecord', 'T', [None] * 3, {'A': ['x', 'y', 'y'], 'B': [1, 2, 3]}]],
+  [['CreateViewSection', 1, 0, 'record', [2], None]],
+  [['AddTable', 'U', _t([('R', 'Ref:T_summary_A'), ('N', 'Int'), ('RL', 'RefList:T_summary_A')])]],
+  [['BulkAddRecord', 'U', [None] * 5, {'R': [0, 1, 2, 1, 2], 'N': [1, 2, 3, 4, 1],
+                                       'RL': [None, ['L', 1], ['L', 1, 2], ['L', 2], None]}]],
+  [['CreateViewSection', 3, 0, 'record', [9], None]],
+  [['CreateViewSection', 3, 0, 'record', [11], None]],
+  [['CreateViewSection', 3, 0, 'record', [9, 10], None]],
+]
+
 SCRIPTS = collections.OrderedDict([
   ('by-0-1-2-columns', [
     [['AddTable', 'T', _t([('A', 'Text'), ('B', 'Int'), ('C', 'Numeric')])]],
@@ -851,6 +880,15 @@ SCRIPTS = collections.OrderedDict([
     [['BulkAddRecord', 'T_summary_A', [None, None], {'A': ['b', 'b']}], ['AddRecord', 'T', None, {'A': 'b'}]],
     [['UpdateRecord', 'T_summary_A', 1, {'A': 'q'}]],
     [['RemoveRecord', 'T_summary_A', 1]],
+  ]),
+  ('chained-summaries', CHAIN_PREFIX + [
+    [['RemoveRecord', 'T', 1]],                       # empties group 'x': second-round removal in U_summary_R
+    'UNDO',
+    [['UpdateRecord', 'T', 1, {'A': 'y'}]],           # the same by re-keying
+    [['AddRecord', 'T', None, {'A': 'w'}], ['UpdateRecord', 'U', 1, {'R': 3, 'RL': ['L', 3]}]],
+    [['BulkRemoveRecord', 'T', [2, 3]]],              # empties 'y'
+    [['BulkUpdateRecord', 'T', [1, 4], {'A': ['q', 'q']}]],
+    [['BulkRemoveRecord', 'T', [1, 4]]],
   ]),
 ])
 
@@ -928,8 +966,10 @@ def plan(ctx):
   base = ctx.rng.randrange(1 << 30)
   n_main, nb_main = ctx.n(10, 150), ctx.n(20, 30)
   n_dir, nb_dir = ctx.n(3, 40), ctx.n(14, 25)
+  n_ch, nb_ch = ctx.n(4, 40), ctx.n(14, 25)
   return ([('main', base + i, nb_main, False) for i in range(n_main)] +
-          [('direct', base + 100000 + i, nb_dir, True) for i in range(n_dir)])
+          [('direct', base + 100000 + i, nb_dir, True) for i in range(n_dir)] +
+          [('chain', base + 200000 + i, nb_ch, 'chain') for i in range(n_ch)])
 
 
 def collect(ctx):
